@@ -107,6 +107,7 @@ pub fn execute_mode(
     let stale0 = stale_reads();
     let mut w = World::new(reg, anchors, cfg.clone(), canary);
     w.deferred = cold;
+    w.trace = std::env::var_os("VERIF_TRACE_OPS").is_some();
     let mut violation = None;
     let mut created = 0u64;
     for op in ops {
@@ -169,11 +170,20 @@ pub fn run_one_limited(reg: &Registry, anchors: &Anchors, prop: Prop, seed: u64,
 }
 
 pub fn run_one_mode(reg: &Registry, anchors: &Anchors, prop: Prop, seed: u64, known: &Known, lim: &Limits, cold: bool) -> RunResult {
+    run_one_full(reg, anchors, prop, seed, known, lim, cold, false)
+}
+
+#[allow(clippy::too_many_arguments)]
+pub fn run_one_full(reg: &Registry, anchors: &Anchors, prop: Prop, seed: u64, known: &Known, lim: &Limits, cold: bool, trace: bool) -> RunResult {
     let stale0 = stale_reads();
     let mut rng = Prng::new(seed);
     let pl = plan_limited(reg, prop, &mut rng, lim);
     let mut w = World::new(reg, anchors, pl.cfg.clone(), seed);
     w.deferred = cold;
+    w.trace = trace;
+    if trace {
+        println!("@env {}", pl.cfg.to_json(reg));
+    }
     let mut g = Gen::new();
     let mut ops = Vec::with_capacity(pl.len);
     let mut violation = None;
@@ -458,6 +468,8 @@ pub fn run_batch(
     replay_dir: &str,
     deadline: Option<std::time::Instant>,
     max_violations: usize,
+    on_run: &mut dyn FnMut(u64, u64),
+    fresh_exec: &mut dyn FnMut(&RunCfg, &[Op], u64) -> Option<Violation>,
 ) -> Batch {
     let mut b = Batch {
         runs: 0,
@@ -483,6 +495,7 @@ pub fn run_batch(
             }
         }
         let seed = run_seed(master, i);
+        on_run(i, seed);
         let r = run_one(reg, anchors, prop, seed, known);
         b.runs += 1;
         b.stats.add(&r.stats);
@@ -535,8 +548,28 @@ pub fn run_batch(
                         (p, s.violation.to_json())
                     }
                     None => {
-                        b.harness_errors.push(format!("run {} seed {}: violation did not reproduce on in-process replay: {}", i, seed, v.detail));
-                        (format!("{}.orig.json", base), v.to_json())
+                        // Not reproducible when replayed inside this (by now used) process: the outcome depends on
+                        // process-global state. Try the same history in a fresh process, minimising there ...
+                        let mut fx = |cfg: &RunCfg, ops: &[Op]| fresh_exec(cfg, ops, seed);
+                        match shrink_with(&r, prop.name(), &mut fx) {
+                            Some(s) => {
+                                let j = replay_json(reg, prop.name(), seed, &s.cfg, &s.ops, &s.violation,
+                                    json!({"run": i, "master_seed": master, "minimised": true, "ops_before": r.ops.len(), "ops_after": s.ops.len(),
+                                           "shrink_replays": s.replays, "note": "depends on process-global state: reproduces in a fresh process, not when replayed inside the process that found it"}));
+                                let p = format!("{}.min.json", base);
+                                let _ = std::fs::write(&p, serde_json::to_string_pretty(&j).unwrap());
+                                (p, s.violation.to_json())
+                            }
+                            None => {
+                                // ... else it depends on what earlier runs of this worker left behind: the exact replay is
+                                // this worker's deterministic sequence of runs from its start up to this run
+                                let mut j = orig.clone();
+                                j["worker_prefix"] = json!({"master_seed": master, "stride": stride, "offset": offset, "upto_run": i, "signature": sig});
+                                let p = format!("{}.prefix.json", base);
+                                let _ = std::fs::write(&p, serde_json::to_string_pretty(&j).unwrap());
+                                (p, v.to_json())
+                            }
+                        }
                     }
                 };
                 b.violations.push(json!({"replay": path, "violation": vj, "run": i, "seed": seed}));
